@@ -1,18 +1,18 @@
 package harness
 
 import (
-	"io"
-	"testing/iotest"
 	"bufio"
 	"bytes"
 	"context"
 	"encoding/json"
 	"fmt"
+	"io"
 	"net/http"
 	"net/http/httptest"
 	"runtime/debug"
 	"strconv"
 	"strings"
+	"testing/iotest"
 	"time"
 
 	"github.com/inbucket/inbucket/v3/pkg/config"
